@@ -26,9 +26,20 @@ Definition raw_tiers (o : option value) : list (list bytes) :=
 
 Definition raw_files (i : list (bytes * value)) : list value :=
   match lookup k_files i with Some (Lst l) => l | _ => [] end.
-Definition raw_file_len (f : value) : N := nat_or_0 (get_nat k_length (top_of f)).
+(** a file entry is a dictionary with `length` and `path`, or (serde's sequence form of a struct, accepted by the
+    real binary) the list [length, path, ...] *)
+Definition raw_file_len (f : value) : N :=
+  match f with
+  | Lst (Int z :: _) => Z.to_N z
+  | Lst _ => 0
+  | _ => nat_or_0 (get_nat k_length (top_of f))
+  end.
 Definition raw_file_path (f : value) : list bytes :=
-  match lookup k_path (top_of f) with Some p => raw_strs p | None => [] end.
+  match f with
+  | Lst (_ :: p :: _) => raw_strs p
+  | Lst _ => []
+  | _ => match lookup k_path (top_of f) with Some p => raw_strs p | None => [] end
+  end.
 
 Section Spec.
   Variable cal : N -> option bytes.
